@@ -457,10 +457,70 @@ def rule_h(ctx: Ctx):
         ctx.ob("C07.h", f"FFSPEnv.{meth}:{key}<-tables.{getter}", ok, sl.where, f"{key} is written from {names}", construct=f"FFSPEnv.{meth}:{key}:getter")
 
 
+def rule_j(ctx: Ctx):
+    """C07.j lookup tables and time stamps keep their values.  (1) Two attributes bound to ONE tensor (`self.a = self.b`) are two
+    names, not two tables: an in-place update through either name (`-=`, `[...] =`, `x_()`) changes both -- FFSP's machine table
+    (machine -> column of run_time / schedule) must keep the stage offset that the per-stage embedding index drops.  (2) The
+    processing time of the chosen (machine, operation) pair enters finish_times / busy_until as read from the instance: a cast to
+    an integer type shortens fractional durations."""
+    import ast
+    n_alias = 0
+    for rel in ("rl4co/envs/scheduling/ffsp/env.py", "rl4co/envs/scheduling/fjsp/env.py", "rl4co/envs/scheduling/jssp/env.py", "rl4co/envs/scheduling/smtwtp/env.py"):
+        mi = ctx.repo.module_by_path(rel)
+        if mi is None:
+            raise AnalysisError(f"{rel} not found")
+        for cnode in [n for n in ast.walk(mi.tree) if isinstance(n, ast.ClassDef)]:
+            aliases = []
+            for n in ast.walk(cnode):
+                if isinstance(n, ast.Assign) and len(n.targets) == 1 and all(isinstance(x, ast.Attribute) and isinstance(x.value, ast.Name) and x.value.id == "self" for x in (n.targets[0], n.value)):
+                    aliases.append((n.targets[0].attr, n.value.attr, n.lineno))
+            for a, b, ln in aliases:
+                n_alias += 1
+                muts = []
+                for n in ast.walk(cnode):
+                    tgt = None
+                    if isinstance(n, ast.AugAssign):
+                        tgt = n.target
+                    elif isinstance(n, ast.Assign) and isinstance(n.targets[0], ast.Subscript):
+                        tgt = n.targets[0]
+                    elif isinstance(n, ast.Call) and isinstance(n.func, ast.Attribute) and n.func.attr.endswith("_") and not n.func.attr.startswith("_"):
+                        tgt = n.func.value
+                    while isinstance(tgt, ast.Subscript):
+                        tgt = tgt.value
+                    if isinstance(tgt, ast.Attribute) and isinstance(tgt.value, ast.Name) and tgt.value.id == "self" and tgt.attr in (a, b):
+                        muts.append(n.lineno)
+                ctx.ob("C07.j", f"{cnode.name}:self.{a}-is-self.{b}:never-updated-in-place", not muts, f"{rel}:{ln}",
+                       f"self.{a} and self.{b} are one tensor (line {ln}); in-place updates through either name: {muts or 'none'}" +
+                       ("" if not muts else f" -- the update also changes the other table"),
+                       construct=f"{cnode.name}:alias:{a}={b}")
+    if n_alias < 1:
+        raise AnalysisError("no attribute aliases found in the scheduling envs (FFSP IndexTables binds stage_machine_table to machine_table)")
+    # (2) processing time of the action
+    env = EnvA(ctx.repo, T.ALL_ENVS["FJSPEnv"], "FJSPEnv")
+    fi = env.resolve("_make_step")
+    ctx.fn(fi)
+    from .C01 import TRUNC_METHS
+    bad = []
+    n_reads = 0
+    for n in ast.walk(fi.node):
+        if isinstance(n, ast.Subscript) and isinstance(n.value, ast.Subscript) and isinstance(n.value.slice, ast.Constant) and n.value.slice.value == "proc_times":
+            n_reads += 1
+    for n in ast.walk(fi.node):
+        if isinstance(n, ast.Call) and isinstance(n.func, ast.Attribute) and "proc_times" in ast.unparse(n.func.value):
+            if n.func.attr in TRUNC_METHS or (n.func.attr in ("to", "type") and any(("int" in ast.unparse(a) or "long" in ast.unparse(a)) for a in list(n.args) + [k.value for k in n.keywords])):
+                bad.append(ast.unparse(n)[:80])
+    if n_reads < 1:
+        raise AnalysisError("FJSPEnv._make_step: read of td['proc_times'][batch, machine, op] not found")
+    ctx.ob("C07.j", "FJSPEnv._make_step:processing-time-as-given", not bad, fi.loc,
+           "the processing time of the action is used as read from the instance" if not bad else f"{bad[0]}: durations are truncated to integers, operations run shorter than their processing time",
+           construct="FJSPEnv._make_step:proc-time-cast")
+
+
 def run(ctx: Ctx):
     from .C01 import instance_sized_state
     instance_sized_state(ctx, EnvA(ctx.repo, T.ALL_ENVS["SMTWTPEnv"], "SMTWTPEnv"), "C07.i")
     rule_h(ctx)
+    rule_j(ctx)
     rule_g(ctx)
     rule_a(ctx)
     rule_f(ctx)
